@@ -13,3 +13,6 @@ import Properties.C16
 import Properties.C19
 import Properties.C12
 import Properties.C13
+import Properties.C05
+import Properties.C06
+import Properties.C10
